@@ -50,6 +50,12 @@ let handle = function
   | ["disp"; h] ->
     let d = host_display (parse_host h) in
     String.concat " " [show_list d; show_xr show_host (host_parse_x idna d); show_xr show_host (host_parse_opaque_x d)]
+  (* the specification model (Spec/WhatwgHost.v), validated against the harness's transcription *)
+  | ["spec6"; s] -> (match Spec.ipv6_parse (parse_list s) with Some a -> "ok:" ^ show_list a | None -> "fail")
+  | ["specser"; a] -> show_list (Spec.ipv6_serialize (parse_list a))
+  | ["spec4"; s] ->
+    let l = parse_list s in
+    (match Spec.ipv4_parse l with Some a -> "ok:" ^ show_n a | None -> "fail") ^ " " ^ show_bool (Spec.ends_in_a_number l)
   | ["tables"] -> show_list t_HOST_INVALID_HOST_CHARS ^ " " ^ show_list t_HOST_IDNA_DENIED
   | _ -> failwith "unknown request"
 
